@@ -654,7 +654,9 @@ def check_c13(run):
 
 @check("C18", "model_checking")
 def check_c18(run):
-    cs = std_configs(run.tier, hists=("full", "stages3", "uponly", "m2lafterup", "p2ponly"), stops=(0, 2, 3), small=True)
+    cs = std_configs(run.tier, hists=("full", "stages3", "uponly", "m2lafterup", "p2ponly"), stops=(0, 2, 3) if run.tier == "quick" else (2, 3), small=True)
+    if run.tier != "quick":      # (the thorough product of 7 configurations x 5 histories x 3 levels ran for hours; the two largest trees are left to C01 / C12)
+        cs = [c for c in cs if c[0] not in ("1d-h6", "3d-h4")]
     cs.append(("1d-h5-multi", fmm_constants(1, 5, POOL_1D_H5[:5], maxper=3, maxparts=8, bss=(1, 2, 20))))
     run_fmm_configs(run, "C18", cs)
     # the target/source executor around the wrappers: TbfInteractionCounter<BagKernel> (1) and TbfInteractionCounter<TbfInteractionTimer<BagKernel>> (2)
